@@ -44,29 +44,72 @@ impl Conditional<f64> for SeededCond {
     }
 }
 
-fn run_mh(n: usize, seed: u64, progress: bool) -> String {
+fn run_mh(n: usize, seed: u64, progress: bool, pre: bool) -> String {
     let target = Gaussian2D::<f64> { mean: arr1(&[0.0, 0.5]), cov: arr2(&[[1.0, 0.3], [0.3, 2.0]]) };
     let prop = IsotropicGaussian::<f64>::new(0.8).set_seed(999);
-    let mut s = MetropolisHastings::new(target, prop, init_with_seed(n, 2, 7)).seed(seed);
+    let mut s = if pre {
+        // the sampler is USED before it is seeded (an unseeded run), put back on its start through the public fields, then
+        // seeded: the seed must reset every stream the sampler owns, whatever it drew before (Seeds!Closed has no history argument)
+        let inits = init_with_seed::<f64>(n, 2, 7);
+        let mut s = MetropolisHastings::new(target, prop, inits.clone());
+        let _ = s.run(3, 1).unwrap();
+        for (c, st) in s.chains.iter_mut().zip(&inits) {
+            c.current_state = st.clone();
+        }
+        s.seed(seed)
+    } else {
+        MetropolisHastings::new(target, prop, init_with_seed(n, 2, 7)).seed(seed)
+    };
     let out = if progress { s.run_progress(20, 5).unwrap().0 } else { s.run(20, 5).unwrap() };
     fnv(out.iter().map(|x| x.to_bits()))
 }
-fn run_gibbs(n: usize, seed: u64, progress: bool) -> String {
-    let mut s = GibbsSampler::new(SeededCond { rng: SmallRng::seed_from_u64(5) }, init_with_seed(n, 3, 7)).set_seed(seed);
+fn run_gibbs(n: usize, seed: u64, progress: bool, pre: bool) -> String {
+    let mut s = if pre {
+        let inits = init_with_seed::<f64>(n, 3, 7);
+        let mut s = GibbsSampler::new(SeededCond { rng: SmallRng::seed_from_u64(5) }, inits.clone());
+        let _ = s.run(3, 1).unwrap();
+        for (c, st) in s.chains.iter_mut().zip(&inits) {
+            c.current_state = st.clone();
+            c.target = SeededCond { rng: SmallRng::seed_from_u64(5) }; // the conditional's generator is the user's, not the sampler's
+        }
+        s.target = SeededCond { rng: SmallRng::seed_from_u64(5) };
+        s.set_seed(seed)
+    } else {
+        GibbsSampler::new(SeededCond { rng: SmallRng::seed_from_u64(5) }, init_with_seed(n, 3, 7)).set_seed(seed)
+    };
     let out = if progress { s.run_progress(20, 5).unwrap().0 } else { s.run(20, 5).unwrap() };
     fnv(out.iter().map(|x| x.to_bits()))
 }
-fn run_hmc(n: usize, seed: u64, progress: bool) -> String {
+fn run_hmc(n: usize, seed: u64, progress: bool, pre: bool) -> String {
+    use burn::prelude::*;
     if n % 2 == 1 {
         // odd chain counts run in double precision (the output is a function of (kind, n, seed) either way)
         type B64 = Autodiff<NdArray<f64>>;
         let target = DiffableGaussian2D::<f64>::new([0.0, 1.0], [[1.5, 0.4], [0.4, 1.0]]);
-        let mut s = HMC::<f64, B64, _>::new(target, init_with_seed(n, 2, 7), 0.15, 4).set_seed(seed);
+        let mut s = if pre {
+            let inits = init_with_seed::<f64>(n, 2, 7);
+            let mut s = HMC::<f64, B64, _>::new(target, inits.clone(), 0.15, 4);
+            let _ = s.run(3, 1);
+            let dev = s.positions.device();
+            s.positions = Tensor::<B64, 2>::from_data(TensorData::new(inits.concat(), [n, 2]), &dev);
+            s.set_seed(seed)
+        } else {
+            HMC::<f64, B64, _>::new(target, init_with_seed(n, 2, 7), 0.15, 4).set_seed(seed)
+        };
         let out = if progress { s.run_progress(12, 3).unwrap().0 } else { s.run(12, 3) };
         return fnv(out.into_data().to_vec::<f64>().unwrap().into_iter().map(|x| x.to_bits()));
     }
     let target = DiffableGaussian2D::<f32>::new([0.0, 1.0], [[1.5, 0.4], [0.4, 1.0]]);
-    let mut s = HMC::<f32, B32, _>::new(target, init_with_seed(n, 2, 7), 0.15, 4).set_seed(seed);
+    let mut s = if pre {
+        let inits = init_with_seed::<f32>(n, 2, 7);
+        let mut s = HMC::<f32, B32, _>::new(target, inits.clone(), 0.15, 4);
+        let _ = s.run(3, 1);
+        let dev = s.positions.device();
+        s.positions = Tensor::<B32, 2>::from_data(TensorData::new(inits.concat(), [n, 2]), &dev);
+        s.set_seed(seed)
+    } else {
+        HMC::<f32, B32, _>::new(target, init_with_seed(n, 2, 7), 0.15, 4).set_seed(seed)
+    };
     let out = if progress { s.run_progress(12, 3).unwrap().0 } else { s.run(12, 3) };
     fnv(out.into_data().convert::<f64>().to_vec::<f64>().unwrap().into_iter().map(|x| x.to_bits()))
 }
@@ -80,10 +123,13 @@ fn run_nuts(n: usize, seed: u64, progress: bool) -> String {
     fnv(out.into_data().convert::<f64>().to_vec::<f64>().unwrap().into_iter().map(|x| x.to_bits()))
 }
 fn run_kind(kind: &str, n: usize, seed: u64, progress: bool) -> String {
+    run_kind_pre(kind, n, seed, progress, false)
+}
+fn run_kind_pre(kind: &str, n: usize, seed: u64, progress: bool, pre: bool) -> String {
     match kind {
-        "MH" => run_mh(n, seed, progress),
-        "Gibbs" => run_gibbs(n, seed, progress),
-        "HMC" => run_hmc(n, seed, progress),
+        "MH" => run_mh(n, seed, progress, pre),
+        "Gibbs" => run_gibbs(n, seed, progress, pre),
+        "HMC" => run_hmc(n, seed, progress, pre),
         "NUTS" => run_nuts(n, seed, progress),
         k => tool_error(&format!("kind {k}")),
     }
@@ -96,6 +142,7 @@ pub fn scenario(args: &[String]) {
     let seed: u64 = sc["seed"].as_str().unwrap().parse().unwrap();
     let progress = sc["progress"].as_bool().unwrap();
     let second = sc["second"].as_bool().unwrap();
+    let pre = sc["pre"].as_bool().unwrap_or(false);
     let stop = Arc::new(AtomicBool::new(false));
     let mut bg = vec![];
     let conc = sc["concurrent"].as_str().unwrap().to_string();
@@ -116,7 +163,7 @@ pub fn scenario(args: &[String]) {
     let mut hashes = vec![];
     let mut panic_msg = None;
     for _ in 0..(if second { 2 } else { 1 }) {
-        match catch(|| run_kind(&kind, n, seed, progress)) {
+        match catch(|| run_kind_pre(&kind, n, seed, progress, pre)) {
             Ok(h) => hashes.push(h),
             Err(e) => {
                 panic_msg = Some(e);
